@@ -165,6 +165,18 @@ func (c *Case) Logf(format string, a ...interface{}) {
 	}
 }
 
+// InjectAborts runs, every 8th case, a few evaluations that ABORT half-way (deliberate argument-type
+// complaints and invalid dynamic patterns raised after part of the work was done) and recovers from
+// them, as a caller of the library would. A correct engine is unaffected: no value computed afterwards
+// may depend on them. Global scratch state handed back dirty after a panic (pools, caches) shows up
+// in whatever the monitors check next.
+func (c *Case) InjectAborts() {
+	if c.Index%8 != 0 {
+		return
+	}
+	injectAborts(c)
+}
+
 // Family is a list of cases: N(tier) cases, each executed by Run.
 type Family struct {
 	Name string
